@@ -717,13 +717,18 @@ func shrinkC14(h *History, sig string) *History {
 
 func checkC14(tier string, seed int64) {
 	t0 := time.Now()
-	n := 60000
+	// the 'sched' configuration runs one history at a time (package-level schedule), the shipped one on all cores
+	n := 400000
 	if tier != "quick" {
-		n = 5000000
+		n = 12000000
 	}
 	config := "shipped"
 	if schedAvailable {
 		config = "sched"
+		n = 100000
+		if tier != "quick" {
+			n = 3000000
+		}
 	}
 	st := &Stats{Counters: common.Counter{}, Distinct: map[string]bool{}}
 	type outcome struct {
